@@ -47,4 +47,19 @@ META = {
         "level_text": "Exploration: after every step every version number in {0,1} U [first-ever-1, latest+1] is queried through VersionExists, GetImmutable, GetVersioned and LoadVersion on a throw-away handle, plus AvailableVersions/GetLatestVersion, on the live handle and (after prune/rollback) on a fresh handle; re-commit of an existing number must be idempotent iff the hashes agree, else fail with a byte-identical store.",
         "level_note": _TB + "Open finding F17 (explicit InitialVersionOption(0): version 0 is committed but never visible) is excluded from generation and shown by the replay tier.",
     },
+    "C08": {
+        "technique": "property-based testing of three iterator implementations against a sorted-map oracle over generated states x bounds x direction x stop point",
+        "level_text": "Exploration: tree states are reached by generated histories (committed+index, historical, index disabled, working tree with uncommitted additions/updates/removals, empty); for each drawn (start,end,direction,stop) every interface - the tree's own Iterator driven through the full Valid/Key/Value/Next/Error/Close protocol, the tree-walk iterator, IterateRange, IterateRangeInclusive, Iterate - must yield exactly sorted(model) in [start,end) (<= end inclusive) once, in order, then remain invalid; a stopping callback must stop at that element.",
+        "level_note": _TB + "Next() is never called on an invalid iterator (caller error in the corestore contract); Domain() is not asserted (the property is silent).",
+    },
+    "C09": {
+        "technique": "differential stateful property testing against a never-diverged twin tree (plus reference model), raw-store comparison",
+        "level_text": "Exploration: after a rollback to v (LoadVersionForOverwriting or DeleteVersionsFrom + reload, repeated/nested/after pruning) a twin tree on a fresh store is rebuilt from the surviving history only; every further op goes to both and after each step reads, hashes, AvailableVersions and the raw stores (node entries byte-identical up to the (v,0)/(v,1) spelling of a reference to a re-keyed root, fast entries keys+values, label) are compared, so nothing of the erased versions can leak through caches, counters or the index.",
+        "level_note": _TB + "Open finding F3 is steered around (rollback with the index disabled while a label exists).",
+    },
+    "C15": {
+        "technique": "model-based property testing: change sets predicted from the op log, metamorphic replay through SaveChangeSet",
+        "level_text": "Exploration: the expected change set of every version is computed from the op log and the versioned-map model and compared with TraverseStateChanges for drawn ranges; all sets are replayed into an empty tree (contents always, reference hashes when the original history was in normal form - a third of the cases); removal of a missing key must be rejected without creating a version.",
+        "level_note": _TB + "Only versions whose predecessor is retained (or the first version ever, predecessor = empty tree) are constrained, as the property states; the inclusive/exclusive end of the range is accepted either way (doc comment and code disagree).",
+    },
 }
